@@ -48,6 +48,34 @@ def heuCall (h : Heu) (s : Store) (v : List Nat) (time : Nat) : Option (Nat × N
     | some (i, _) => some (i, (r / 2 ^ 33) % 2)
     | none => none
 
+/-- `heuCall` with the keys of all undecided statements computed once per call (path counts and
+dependency sets with shared memos) — what the compiled driver runs -/
+def heuCallM (h : Heu) (s : Store) (v : List Nat) (time : Nat) : Option (Nat × Nat) :=
+  match h with
+  | .simple => (undecided v).head?.map (fun (i, _) => (i, 1))
+  | .minPathsMaxVarImp =>
+    (Memo.minByK Memo.cmpPI (Memo.keysPI s v (undecided v))).map (fun (i, t) => (i, if moreModels (paths s t) then 1 else 0))
+  | .maxVarImpMinPaths =>
+    (Memo.minByK Memo.cmpIP (Memo.keysPI s v (undecided v))).map (fun (i, t) => (i, if moreModels (paths s t) then 1 else 0))
+  | .script seed =>
+    let u := undecided v
+    let r := (splitmix (UInt64.ofNat seed + UInt64.ofNat time * 0x2545F4914F6CDD1D)).toNat
+    match u[r % u.length]? with
+    | some (i, _) => some (i, (r / 2 ^ 33) % 2)
+    | none => none
+
+@[csimp] theorem heuCall_eq_heuCallM : @heuCall = @heuCallM := by
+  funext h s v time
+  cases h with
+  | simple => rfl
+  | script seed => rfl
+  | minPathsMaxVarImp =>
+    simp only [heuCall, heuCallM, Memo.keysPI_eq]
+    rw [minBy_keyed (fun p => (minPaths s p.2, passive s p.1 v)) (cmpMinPathsImp s v) Memo.cmpPI (fun _ _ => rfl)]
+  | maxVarImpMinPaths =>
+    simp only [heuCall, heuCallM, Memo.keysPI_eq]
+    rw [minBy_keyed (fun p => (minPaths s p.2, passive s p.1 v)) (cmpImpMinPaths s v) Memo.cmpIP (fun _ _ => rfl)]
+
 /-- `conclusion_closure` with an explicit bound on the number of rounds (each round decides at
 least one more position, so `length + 1` rounds suffice) -/
 def closureRounds (buckets : List (List PA)) : Nat → List Nat → ClosT
